@@ -559,7 +559,7 @@ def _k_misbind(family, case, disc):
         return False
     # ... the wrong object (self, a neighbouring argument) is handed to schema.validate, which may raise anything
     return disc.kind.startswith("unexpected-exception:") or disc.kind in (
-        "body-args-differ", "valid-input-rejected", "body-ran-on-rejected-input")
+        "body-args-differ", "body-args-differ:identity-only", "valid-input-rejected", "body-ran-on-rejected-input")
 
 
 @known.finding("C17/check-input-str-getter-varargs-repacked")
